@@ -282,7 +282,7 @@ class Discharger:
     def const_nonempty(self, base, s):
         """`Trait::VARIANTS`: generated by Ordinalize from the enum's variants; non-empty iff the enum has an
         un-cfg'd variant."""
-        if es(base) == 'Trait::VARIANTS':
+        if es(base) == 'Trait::VARIANTS' or (es(base) == 'Self::VARIANTS' and s.fw.fn.self_ty == 'Trait'):
             item, _ = self.cx.crate.find_type(s.fw.fn.module, 'Trait')
             if item is not None and item['k'] == 'Enum':
                 from ..model import cfgs_of_attrs
@@ -342,24 +342,14 @@ class Discharger:
         """Trait::from_path must be an enumeration: every way it produces a result is `None` or `Some(Self::<V>)` for a literal variant
         V; it can return `variant` iff some result names it.  Any other way of producing the result (a table lookup, a conversion)
         may yield any variant."""
-        import re
-        from ..restable import result_leaves
-        for f in self.cx.crate.fns:
-            if f.qname.endswith('supported_traits::Trait::from_path'):
-                leaves = result_leaves(self.cx, f)
-                if not leaves:
-                    return True
-                for v, ctx, how, ev in leaves:
-                    t = es(v).replace(' ', '')
-                    if t == 'None':
-                        continue
-                    m = re.fullmatch(r'Some\((?:Self|Trait)::([A-Za-z_0-9]+)\)', t)
-                    if not m:
-                        return True
-                    if m.group(1) == variant:
-                        return True
-                return False
-        return True
+        from .traitenum import from_path_model
+        fm = from_path_model(self.cx)
+        if fm is None:
+            return True
+        form, table, any_ = fm
+        if any_:
+            return True
+        return any(v == variant for v, _ in table.values())
 
     # R6 ----------------------------------------------------------------------------------
     def r_insert_str(self, s):
@@ -545,6 +535,13 @@ class Discharger:
         if a is None:
             return None
         t = self.tm(s.fw).term(a, s.ev.scope)
+        # Ident::new(&format!("_{}", index), ..): a letter/underscore prefix followed by decimal digits is an identifier
+        whole = self.tm(s.fw).term(s.ev.node, s.ev.scope)
+        if isinstance(whole, tuple) and whole[0] == 'format_ident' and isinstance(whole[1], str):
+            import re
+            lit = re.sub(r'\{[^}]*\}', '', whole[1])
+            if re.fullmatch(r'[A-Za-z_][A-Za-z0-9_]*', lit) and not whole[1].startswith('{') and lit not in ('_',) or (lit == '_' and whole[1] != '_'):
+                return ('R-ident-numbered', 'literal prefix `%s` followed by numbers only' % lit)
         # Ident::new(self.as_str(), ..) where as_str() returns only literal keywords-free identifiers
         if a['k'] == 'Lit' and a['lit']['k'] == 'Str':
             return ('R-ident-const', 'constant identifier text')
